@@ -4,17 +4,22 @@ One job = one trace: a fresh traced transpiler (vf/c10_probe.py) installed as ma
 a fresh pool of real functions (vf/c10_pool.py), N threads hammering it through
 PyToPy.transform / malt.to_graph / api.convert wrappers / api.converted_call with random start barriers and
 sys.setswitchinterval(1e-6); redefinitions happen concurrently, collections at thread-private lifecycles and
-at the checkpoint between the two phases.  The recorded trace is judged by TLC (spec/TraceConvCache.tla),
+at the checkpoint between the two phases.  The heap part of the specification is exercised as well: closures over
+distinct cells holding equal values (twins), captured variables rebound concurrently / at the checkpoints / in
+private lifecycles (Rebind), and private lifecycles in which the next generation's code object is allocated at
+the address of the dead one (DefineFn at an address from FreeAddrs).  The recorded trace is judged by TLC (spec/TraceConvCache.tla),
 not here.  What is compared here is only the *differential* part of the property: every returned function
 against a cache-less fresh conversion of that exact function object (values on a few inputs, and the
 conversion options that reach the generated function scopes).
 """
+import ast
 import gc
 import os
 import sys
 import random
 import tempfile
 import threading
+import types
 import weakref
 
 from . import common
@@ -113,15 +118,17 @@ class StressPool:
         exec(code, self.QA)
         exec(code, self.QB)
         del code
+        # q1, q4, q5: one code object, one globals dict, equal defaults, distinct cells that hold equal values (twins);
+        # q4 / q5 are the ones whose captured variable is rebound while requests are running
         self.slots.update(q1=self.QA['make'](1, 5), q2=self.QA['make'](2, 5), q3=self.QA['make'](1, 6),
-                          qB=self.QB['make'](1, 5))
+                          qB=self.QB['make'](1, 5), q4=self.QA['make'](1, 5), q5=self.QA['make'](1, 5))
         for g in (self.QA, self.QB):
             poolmod.forget_factories(g)
 
     def drop_q(self):
         """Drops the q family; returns [(code id, weakref to the code object)]."""
         out = []
-        for nm in ('q1', 'q2', 'q3', 'qB'):
+        for nm in ('q1', 'q2', 'q3', 'qB', 'q4', 'q5'):
             f = self.slots.pop(nm, None)
             if f is not None:
                 cid = self.reg.code_id(f.__code__, create=False)
@@ -143,7 +150,24 @@ class StressPool:
 
 
 def family(slot):
+    if slot.startswith('reuse'):
+        return 'reuse'
     return {'p': 'plain', 'h': 'helper', 'q': 'closure', 'l': 'looper', 'n': 'nosource'}.get(slot[0], slot)
+
+
+REBINDABLE = ('q4', 'q5')       # requested through transform / to_graph only: no value is taken while threads run
+CELL_VALUES = (1, 2, 3)
+
+
+def captured_seen(fn, b):
+    """What a result of a request for fn read through its closure when it was called (behaviour b): the functions
+    made by `make` return their captured k as the third component."""
+    if fn.__code__.co_freevars != ('k',) or not b or b[0][0] != 'ok':
+        return None
+    try:
+        return (repr(ast.literal_eval(b[0][1])[2]),)
+    except Exception:  # noqa: BLE001 - not the shape of make.fn's result: nothing to report
+        return None
 
 
 # ---------------------------------------------------------------------------------------------
@@ -165,10 +189,19 @@ def plan_jobs(seed, tier):
     for a, b in ONE_FIELD_PAIRS:
         items = [('req', s, oi, 'transform', None, 0) for s in ('pA', 'q1') for oi in (a, b, a)]
         jobs.append(dict(id=len(jobs) + 1, seed=rnd.randrange(1 << 30), nthreads=1, script={'1': [items], '2': [[]]}))
+    # sequential histories over the heap part of the specification: twins requested one after the other and one of
+    # them rebound afterwards (by the script / at the checkpoint); generations of private functions whose code object
+    # takes the address of the dead one and is the subject of the next request
+    for oi, entry in ((0, 'transform'), (2, 'to_graph')):
+        items = [('req', 'q4', oi, entry, None, 0), ('req', 'q5', oi, entry, None, 0), ('rebind', 'q5', 3),
+                 ('req', 'q1', oi, entry, None, 0), ('req', 'q4', oi, entry, None, 0), ('rebind', 'q4', 2),
+                 ('reuse', 'fn', [oi]), ('reuse', 'plain', [oi]), ('reuse', 'fn', [oi, 1])]
+        jobs.append(dict(id=len(jobs) + 1, seed=rnd.randrange(1 << 30), nthreads=1,
+                         script={'1': [items], '2': [[('req', 'q5', oi, entry, None, 0), ('req', 'q4', oi, entry, None, 0)]]}))
     return jobs
 
 
-SLOTS = ['pA', 'pB', 'pA8', 'q1', 'q2', 'q3', 'qB', 'hA', 'ld', 'lu', 'ns']
+SLOTS = ['pA', 'pB', 'pA8', 'q1', 'q2', 'q3', 'qB', 'q4', 'q5', 'hA', 'ld', 'lu', 'ns']
 
 
 def _make_items(rnd, nthreads, slots, ois, script=None):
@@ -188,6 +221,12 @@ def _make_items(rnd, nthreads, slots, ois, script=None):
                 continue
             if r < 0.11:
                 items.append(('private', rnd.choice(('plain', 'fn')), [rnd.choice(ois)]))
+                continue
+            if r < 0.14:
+                items.append(('reuse', rnd.choice(('fn', 'fn', 'plain')), [rnd.choice(ois)]))
+                continue
+            if r < 0.19:
+                items.append(('rebind', rnd.choice(REBINDABLE), rnd.choice(CELL_VALUES)))
                 continue
             slot = rnd.choice(hot) if rnd.random() < 0.5 else rnd.choice(slots)
             oi = rnd.choice(ois)
@@ -230,7 +269,8 @@ def run_job(job):
     spy = ScopeSpy()
     diffs = []
     dlock = threading.Lock()
-    stats = dict(requests=0, private=0, redefine=0, collected=0, uncollectable=0, compared=0, injected=0)
+    stats = dict(requests=0, private=0, redefine=0, collected=0, uncollectable=0, compared=0, injected=0,
+                 rebinds=0, reuse=0, reuse_at_address=0, looks=0)
     checker_tid = nthreads + 1
     next_version = [10]
     vlock = threading.Lock()
@@ -302,6 +342,10 @@ def run_job(job):
                 b_want, s_want = b_ref, s_ref
                 if fac is not None:
                     ent['seen'].add(fac)
+            seen = captured_seen(fn, b_g)
+            if seen is not None:
+                stats['looks'] += 1
+                probe.look(fn, oi + 1, seen)
             if b_g != b_want:
                 diff('c10:fresh-diff:value:%s' % fam,
                      'the function returned for a request behaves differently from a fresh conversion of that function object',
@@ -316,6 +360,19 @@ def run_job(job):
                 diff('c10:fresh-diff:call-value:%s' % fam,
                      'calling through %s gives another result than calling a fresh conversion' % entry,
                      slot=slot, options=oi + 1, entry=entry, got=val, fresh=want)
+
+    def refresh(memo, only=None):
+        """The captured variables were rebound: the fresh conversions (bound to the functions' own cells) and the
+        originals are observed again; they have to agree with each other again."""
+        for (_, oi), ent in memo.items():
+            if only is not None and not any(ent['fn'] is f for f in only):
+                continue
+            b_ref, s_ref = observe_reference(ent['ref'])
+            b_org = poolmod.behaviour(ent['fn'])
+            if b_ref != b_org:
+                raise common.MachineryError('C10 pool: after a rebinding the fresh conversion and the original disagree '
+                                            '%r / %r' % (b_ref, b_org))
+            ent.update(b=b_ref, s=s_ref, seen=set())
 
     def find_done(fn, oi):
         cid = reg.code_id(fn.__code__, create=False)
@@ -348,6 +405,8 @@ def run_job(job):
             entry = 'transform'
         if slot in ('ld', 'lu') and entry in ('convert', 'converted_call'):
             entry = 'transform'   # the looper's observable is a shared counter: it is only called at checkpoints
+        if slot in REBINDABLE and entry in ('convert', 'converted_call'):
+            entry = 'to_graph' if (o.user_requested and o.internal_convert_user_code) else 'transform'
         plan = build_plan(plan_spec) if entry == 'transform' else None
         if plan is not None and plan.nested is not None:
             nfn, nopt, _ = plan.nested
@@ -417,6 +476,11 @@ def run_job(job):
                 check_exception(fn, oi, 'private-' + which, 'transform', e)
                 continue
             compare(fn, oi, g, 'private-' + which, 'transform', memo=pmemo)
+            if which == 'fn':
+                # the captured variable is rebound after the request: the result has to follow
+                do_rebind(fn, 2)
+                refresh(pmemo)
+                compare(fn, oi, g, 'private-' + which, 'transform', memo=pmemo)
             del g
         pmemo.clear()
         probe.tls.done = []
@@ -434,9 +498,87 @@ def run_job(job):
         for cid, wr in watch:
             if wr() is None:
                 stats['collected'] += 1
-                probe.ev('collect', key=cid, th=0)
+                probe.collected(cid)
             else:
                 stats['uncollectable'] += 1
+
+    def do_rebind(fn, value):
+        if fn is not None and probe.rebind(fn, 'k', value):
+            stats['rebinds'] += 1
+
+    def do_reuse(item):
+        """Generations of thread-private functions: a pair of twins (one new code object, two function objects over
+        distinct cells holding equal values) is requested, compared, one twin's captured variable is rebound, both are
+        compared again, then everything is dropped; the code object of the next generation - another definition - is
+        allocated where the dead one was and is the subject of this thread's next request."""
+        _, which, ois = item
+        stats['reuse'] += 1
+        P = poolmod.new_globals('c10reuse', 400 + probe.tid())
+        templates = []
+        for _ in range(2):
+            ns = poolmod.new_globals('c10templ', 500 + probe.tid())
+            code = sources.compile(fresh_version())
+            exec(code, ns)
+            del code
+            templates.append(ns)
+        P['helper'] = templates[0]['helper']
+        slot = 'reuse-' + which
+        address = None
+        for gen, ns in enumerate(templates):
+            # what executing the def again gives: a new code object (here: a copy of the template's, so that its
+            # lifetime is exactly that of the functions made from it; the template itself is never converted)
+            tcode = ns['plain'].__code__ if which == 'plain' else ns['make'](1, 5).__code__
+            parked = []
+            code = tcode.replace(co_name=tcode.co_name)
+            while address is not None and id(code) != address and len(parked) < 400:
+                parked.append(code)
+                code = tcode.replace(co_name=tcode.co_name)
+            if address is not None and id(code) == address:
+                stats['reuse_at_address'] += 1
+            del parked
+            if which == 'plain':
+                twins = [types.FunctionType(code, P, 'plain', (7,))]
+            else:
+                twins = []
+                for _ in range(2):
+                    f = types.FunctionType(code, P, 'fn', (5,), (types.CellType(1),))
+                    f.__kwdefaults__ = {'kw': 5}
+                    twins.append(f)
+                del f
+            wr, address = weakref.ref(code), id(code)
+            del code, tcode
+            pmemo, got = {}, []
+            for oi in ois:
+                for fn in twins:
+                    probe.tls.next_plan = None
+                    probe.tls.done = []
+                    stats['requests'] += 1
+                    try:
+                        got.append((fn, oi, T.transform(fn, conv.ProgramContext(options=opts[oi]))[0]))
+                    except Exception as e:  # noqa: BLE001
+                        check_exception(fn, oi, slot, 'transform', e)
+            for rebound in (False, True):
+                if rebound:
+                    if which != 'fn':
+                        break
+                    do_rebind(twins[-1], 2 + gen)
+                    refresh(pmemo)
+                for fn, oi, g in got:
+                    compare(fn, oi, g, slot, 'transform', memo=pmemo)
+            pmemo.clear()
+            del got[:]
+            probe.tls.done = []
+            probe.tls.last = None
+            cid = reg.code_id(twins[0].__code__, create=False)
+            fn = g = None
+            del twins[:]
+            if wr() is None:
+                stats['collected'] += 1
+                probe.collected(cid)
+            else:
+                stats['uncollectable'] += 1
+                address = None
+        P.clear()
 
     def check_exception(fn, oi, slot, entry, exc):
         try:
@@ -452,6 +594,14 @@ def run_job(job):
 
     def checkpoint(stashes):
         memo = {}
+        again = []
+        # afterwards one of the twins is rebound and the results handed out for the twins are observed once more
+        target = rnd.choice(('q1', 'q4', 'q5'))
+        twins = [pool.slots.get(nm) for nm in ('q1', 'q4', 'q5')]
+        for st in stashes:
+            for s in st:
+                if s['exc'] is None and s['g'] is not None and any(s['fn'] is f for f in twins):
+                    again.append(s)
         for st in stashes:
             for s in st:
                 if s['exc'] is not None:
@@ -465,7 +615,14 @@ def run_job(job):
                 else:
                     compare(s['fn'], s['oi'], s['g'], s['slot'], s['entry'], s['x'], s['val'], memo, s['fac'])
             del st[:]
+        if again:
+            tf = pool.slots.get(target)
+            do_rebind(tf, 1 + tf.__closure__[0].cell_contents % 3)
+            refresh(memo, only=twins)
+            for s in again:
+                compare(s['fn'], s['oi'], s['g'], s['slot'], s['entry'], memo=memo)
         memo.clear()
+        del twins, again
 
     barrier = threading.Barrier(nthreads)
     stashes = [[] for _ in range(nthreads)]
@@ -487,6 +644,10 @@ def run_job(job):
                 elif item[0] == 'redefine':
                     stats['redefine'] += 1
                     pool.redefine_A(fresh_version())
+                elif item[0] == 'rebind':
+                    do_rebind(pool.slots.get(item[1]), item[2])
+                elif item[0] == 'reuse':
+                    do_reuse(item)
                 else:
                     do_private(item)
         except threading.BrokenBarrierError:
@@ -533,7 +694,7 @@ def run_job(job):
                 for cid, wr in watch:
                     if wr() is None:
                         stats['collected'] += 1
-                        probe.ev('collect', key=cid, th=0)
+                        probe.collected(cid)
                     else:
                         stats['uncollectable'] += 1
                 pool.make_q()
@@ -563,6 +724,7 @@ def run_job(job):
     with probe.evlock:
         events = list(probe.events)
     stats.update(events=len(events), transforms=sum(probe.ntr.values()), attempts=sum(probe.natt.values()),
+                 addr_reuse=probe.addr_reuses,
                  codes=reg.n_codes(), envs=reg.n_envs(), opts=reg.n_opts(), threads=checker_tid)
     trace = dict(id=job['id'], fns=[], ev=events)
     # cleanup
